@@ -1,4 +1,4 @@
-import Kolibrie.Lemmas.Implement
+import Kolibrie.Lemmas.LowerSound
 /-!
 # C01 — SELECT answers equal the SPARQL algebra over the stored dataset
 
@@ -22,122 +22,51 @@ Proved here (all rows / plans / databases):
   ORDER BY / LIMIT, every assignment of join algorithms yields the same multiset of result rows, namely that of
   the nested-loop reference plan.
 
-/- FULL (checked by the correspondence run against the algebra; not yet proved):
-   theorem select_correct : wellScoped [] q.where_ = true →
-       ∀ algs, (runSelect db q algs) ~ specSelect db q
-   Proved: plan independence (above, via C02's `optimizer_choice_irrelevant`), filter/bind/modifier agreement
-   lemmas (this file).  Missing: the induction relating the reference plan `implNl (lower .dflt p)` to `sem p`
-   (graph scope carried on scans vs the active graph of the algebra), BIND, sub-selects with joins, and the
-   modifiers on permuted inputs (ORDER BY ties, LIMIT cuts and DISTINCT representatives are legal choices, so the
-   statement there is "a legal answer", which the harness checks directly). -/
+* **`where_clause_correct`**: for every WHERE clause of the fragment `okPat` (BGPs, nested groups with group-scoped
+  FILTERs over certainly-bound variables, UNION, GRAPH <iri> / GRAPH ?g, VALUES/UNDEF), every dataset, every dataset
+  clause (FROM / FROM NAMED replacement) and every plan the optimizer may pick, the solutions the executor produces are
+  exactly the multiset of the SPARQL algebra; `select_correct_partial` lifts this through `finalize_select` for
+  queries without aggregate / DISTINCT / ORDER BY / LIMIT.
+
+/- FULL: `∀ q` of the supported fragment, `runSelect db q algs` is a legal answer for `specSelect db q`.
+   Not proved: BIND and sub-selects in the WHERE clause (see `Props/C02.lean`), and the modifiers on permuted
+   inputs — ORDER BY ties, LIMIT cuts, DISTINCT representatives and the first row of a GROUP are legal choices, so
+   equality of tables is not the right statement there; the harness checks sortedness and the legal-cut property on
+   the real output. -/
 -/
 namespace Kolibrie.Props.C01
 open Kolibrie.Engine List
 
-def boundIn (row : Row) (vs : List Var) : Prop := ∀ v ∈ vs, (Row.get row v).isSome = true
-
 /-- on rows that bind every variable of the expression, `evaluate_filter_with_ids` is SPARQL evaluation -/
 theorem filter_agrees (c : Cond) (row : Row) (h : boundIn row c.vars) :
-    c.eval3 row = some (c.eval row) := by
-  induction c with
-  | cmp v op rhs =>
-    cases rhs with
-    | var w =>
-      have hv := h v (by simp [Cond.vars])
-      have hw := h w (by simp [Cond.vars])
-      cases hx : Row.get row v with
-      | none => simp [hx] at hv
-      | some x =>
-        cases hy : Row.get row w with
-        | none => simp [hy] at hw
-        | some y => simp [Cond.eval3, Cond.eval, hx, hy]
-    | const r =>
-      have hv := h v (by simp [Cond.vars])
-      cases hx : Row.get row v with
-      | none => simp [hx] at hv
-      | some x => simp [Cond.eval3, Cond.eval, hx]
-  | and a b iha ihb =>
-    have ha := iha (fun v hv => h v (by simp [Cond.vars, hv]))
-    have hb := ihb (fun v hv => h v (by simp [Cond.vars, hv]))
-    simp only [Cond.eval3, Cond.eval, ha, hb]
-    cases a.eval row <;> cases b.eval row <;> rfl
-  | or a b iha ihb =>
-    have ha := iha (fun v hv => h v (by simp [Cond.vars, hv]))
-    have hb := ihb (fun v hv => h v (by simp [Cond.vars, hv]))
-    simp only [Cond.eval3, Cond.eval, ha, hb]
-    cases a.eval row <;> cases b.eval row <;> rfl
-  | not a ih =>
-    have ha := ih (fun v hv => h v (by simpa [Cond.vars] using hv))
-    simp [Cond.eval3, Cond.eval, ha]
+    c.eval3 row = some (c.eval row) := filter_agrees' c row h
 
-theorem keeps_eq_eval (c : Cond) (row : Row) (h : boundIn row c.vars) : keeps c row = c.eval row := by
-  unfold keeps; rw [filter_agrees c row h]; cases c.eval row <;> rfl
+theorem keeps_eq_eval (c : Cond) (row : Row) (h : boundIn row c.vars) : keeps c row = c.eval row :=
+  keeps_eq_eval' c row h
 
 /-- the hypothesis of `filter_agrees` is forced: negation over an unbound variable -/
-theorem filter_clash : ∃ (c : Cond) (row : Row), keeps c row = false ∧ c.eval row = true :=
-  ⟨.not (.cmp 0 "=" (.const "7")), [], by decide, by decide⟩
+theorem filter_clash : ∃ (c : Cond) (row : Row), keeps c row = false ∧ c.eval row = true := filter_clash'
 
 /-- BIND = `Extend` when the arguments are bound and the target is unbound -/
 theorem bind_agrees (args : List Operand) (out : Var) (row : Row)
     (hargs : boundIn row (args.flatMap Operand.vars)) (hout : Row.get row out = none) :
-    extendRow args out row = Row.insert row out (concatArgs args row) := by
-  unfold extendRow
-  simp only
-  split
-  · rfl
-  · rename_i hc
-    exfalso; apply hc
-    simp only [Bool.and_eq_true, hout, Option.isNone_none, and_true]
-    rw [List.all_eq_true]
-    intro a ha
-    cases a with
-    | var v => exact hargs v (by simp only [mem_flatMap]; exact ⟨_, ha, by simp [Operand.vars]⟩)
-    | const c => rfl
+    extendRow args out row = Row.insert row out (concatArgs args row) := bind_agrees' args out row hargs hout
 
 /-- … and deviates on an unbound argument (the implementation concatenates the empty string) -/
 theorem bind_clash : ∃ (args : List Operand) (out : Var) (row : Row),
-    extendRow args out row ≠ Row.insert row out (concatArgs args row) :=
-  ⟨[.var 0, .const "a"], 1, [], by decide⟩
+    extendRow args out row ≠ Row.insert row out (concatArgs args row) := bind_clash'
 
 /-- the executor's plan for the deferred filters of a group is a sequence of `Cond.eval` selections -/
-def implFilters (rows : List Row) : List Pat → List Row
-  | [] => rows
-  | .filter c :: rest => implFilters (rows.filter c.eval) rest
-  | _ :: rest => implFilters rows rest
-
 theorem lowerFilters_exec (db : DB) (ctx : Ctx) (inc : List Row) (algs : List JoinAlg) (plan : Logical)
     (elems : List Pat) :
     exec db (implement algs (lowerFilters plan elems)).1 ctx inc =
-      implFilters (exec db (implement algs plan).1 ctx inc) elems := by
-  induction elems generalizing plan with
-  | nil => simp [lowerFilters, implFilters]
-  | cons e rest ih =>
-    cases e <;> simp only [lowerFilters, implFilters, ih, implement, exec_filter]
+      implFilters (exec db (implement algs plan).1 ctx inc) elems := lowerFilters_exec' db ctx inc algs plan elems
 
 /-- **group-scoped FILTER**: on solutions that bind the filters' variables the deferred selections keep
     exactly what the algebra's filters keep -/
 theorem group_filters_agree (rows : List Row) (elems : List Pat)
     (h : ∀ c, Pat.filter c ∈ elems → ∀ r ∈ rows, boundIn r c.vars) :
-    implFilters rows elems = semFilters rows elems := by
-  induction elems generalizing rows with
-  | nil => simp [implFilters, semFilters]
-  | cons e rest ih =>
-    cases e with
-    | filter c =>
-      simp only [implFilters, semFilters]
-      have hc : rows.filter c.eval = rows.filter (keeps c) := by
-        apply List.filter_congr
-        intro r hr
-        exact (keeps_eq_eval c r (h c (by simp) r hr)).symm
-      rw [hc]
-      apply ih
-      intro c' hc' r hr
-      exact h c' (by simp [hc']) r (List.mem_filter.1 hr).1
-    | _ =>
-      simp only [implFilters, semFilters]
-      apply ih
-      intro c' hc' r hr
-      exact h c' (by simp [hc']) r hr
+    implFilters rows elems = semFilters rows elems := group_filters_agree' rows elems h
 
 /-! ## solution modifiers -/
 
@@ -196,6 +125,25 @@ theorem select_plan_independent_partial (db : DB) (q : Select)
     · exact nodup_eraseDups _
     · exact nodup_eraseDups _
   exact implement_any_two db _ hs a b _ hc
+
+/-- **the WHERE clause is evaluated correctly under every plan** (fragment `okPat`) -/
+theorem where_clause_correct (db : DB) (q : Select) (h : okPat q.where_ = true) (algs : List JoinAlg) :
+    exec db (implement algs (lower .dflt q.where_)).1 ⟨datasetView db q, none⟩ [[]] ~
+      sem db ⟨datasetView db q, none⟩ q.where_ := by
+  have hc : (⟨datasetView db q, none⟩ : Ctx).WF := by
+    unfold datasetView
+    split
+    · exact nodup_eraseDups _
+    · exact nodup_eraseDups _
+  exact plans_compute_algebra db q.where_ h algs _ hc
+
+/-- SELECT answers equal the algebra's, as multisets of rows, for plain projection queries over the fragment -/
+theorem select_correct_partial (db : DB) (q : Select) (h : okPat q.where_ = true)
+    (hp : hasAgg (q.spec.proj.getD []) = false)
+    (hd : q.spec.distinct = false) (ho : q.spec.order = []) (hl : q.spec.limit = none)
+    (algs : List JoinAlg) : runSelect db q algs ~ specSelect db q := by
+  unfold runSelect specSelect
+  exact finalize_plain_perm q hp hd ho hl (where_clause_correct db q h algs)
 
 /-! non-vacuity -/
 example : boundIn [(0, "5"), (1, "x")] (Cond.and (.cmp 0 ">" (.const "3")) (.not (.cmp 1 "=" (.var 0)))).vars := by
